@@ -3,7 +3,7 @@ CONSTANTS
   Sizes = {0, 1, 3}
   MaxWrites = 3
   MaxSteps = 7
-  WithFatalKeep = TRUE
+  WithFatalKeep = FALSE
   WithEof = TRUE
   Variant = "requeue"
 INVARIANT TypeOK
